@@ -23,6 +23,8 @@ def op_strategy(kind, none_p=True, unique_bulk=False, aliases_plain=True, only=N
     means under max_order is not documented).  C03 draws repeated nodes too."""
     n = node_of(kind)
     e = eid_ref
+    # for operations that only do something on an existing edge: mostly IDs that exist right now
+    ex = st.one_of(nets.eid_existing, nets.eid_existing, nets.eid_existing, eid_ref)
     a = attrs()
     b = st.booleans()
     sx = simplex_of(kind, none_p)
@@ -66,8 +68,8 @@ def op_strategy(kind, none_p=True, unique_bulk=False, aliases_plain=True, only=N
         (2, "add_simplices_from", bulk(4)),
         (2, "add_simplices_from", bulk(5)),
         (1, "add_weighted_simplices_from", st.tuples(st.just("add_weighted_simplices_from"), wb, st.sampled_from(["weight", "w"]), noweight, mo).map(list)),
-        (1, "set_edge_attributes", setattr_modes(e).map(lambda t: ["set_edge_attributes"] + list(t))),
-        (6, "remove_simplex_id", st.tuples(st.just("remove_simplex_id"), e).map(list)),
+        (1, "set_edge_attributes", setattr_modes(ex).map(lambda t: ["set_edge_attributes"] + list(t))),
+        (6, "remove_simplex_id", st.tuples(st.just("remove_simplex_id"), ex).map(list)),
         (3, "remove_simplex_ids_from", st.tuples(st.just("remove_simplex_ids_from"), nets.eid_removal_list).map(list)),
         (1, "close", st.just(["close"])),
         (2, "cleanup", st.tuples(st.just("cleanup"), b, b, b).map(list)),
@@ -76,7 +78,7 @@ def op_strategy(kind, none_p=True, unique_bulk=False, aliases_plain=True, only=N
         (1, "add_edge", st.tuples(st.just("add_edge"), sx, ct, st.none(), a).map(list)),
         (1, "add_edges_from", bulk(1, "add_edges_from", st.none())),
         (1, "add_edges_from", bulk(4, "add_edges_from", st.none())),
-        (1, "remove_edge", st.tuples(st.just("remove_edge"), e).map(list)),
+        (1, "remove_edge", st.tuples(st.just("remove_edge"), ex).map(list)),
         (1, "remove_edges_from", st.tuples(st.just("remove_edges_from"), nets.eid_removal_list).map(list)),
         (0.5, "add_weighted_edges_from", st.tuples(st.just("add_weighted_edges_from"), wb, st.sampled_from(["weight", "w"]), noweight, mo).map(list)),
     ]
@@ -93,6 +95,7 @@ def init_strategy(kind):
     return st.one_of(
         st.just(["empty"]),
         st.tuples(st.just("list"), st.lists(sx, max_size=3)).map(list),
+        st.tuples(st.just("list"), st.lists(sx, min_size=2, max_size=4)).map(list),  # start complexes with several simplices
         st.tuples(st.just("dict"), st.lists(st.tuples(eid_literal, sx).map(list), max_size=3, unique_by=lambda t: repr(t[0]))).map(list),
         st.tuples(st.just("hg"), st.lists(st.tuples(eid_literal, sx).map(list), max_size=3, unique_by=lambda t: repr(t[0]))).map(list),
         # a fresh complex whose first simplex was added singly under a falsy explicit ID (0, 0.0, numpy 0)
